@@ -8,16 +8,16 @@ e == TraceLog[l]
 TInit == phase = <<"trace">> /\ ev = Boot /\ l = 1
 k == e.a[1]
 B3(i) == <<e.a[i], e.a[i + 1], e.a[i + 2]>>
-Chunks(nc) == [i \in 1..nc |-> B3(3 * i)]
+Chunks(nc) == [i \in 1..nc |-> B3(3 * i + 1)]
 Expected ==
     CASE e.op = "menc" -> MencObs(k, e.a[2], e.a[3], e.a[4], e.a[5])
       [] e.op = "benc" -> BencObs(k, B3(2))
       [] e.op = "bencn" -> BencnObs(k, B3(2), e.a[5])
-      [] e.op = "cuse" -> CuseObs(k, Chunks(e.a[2]))
+      [] e.op = "cuse" -> CuseObs(k, Drop(Chunks(e.a[3]), e.a[2]))
       [] e.op = "msink" -> MsinkObs(k, e.a[2])
       [] e.op = "bsink" -> BsinkObs(k, B3(2))
       [] e.op = "bsinkn" -> BsinknObs(k, B3(2), e.a[5])
-      [] e.op = "csink" -> CsinkObs(k, Chunks(e.a[2]))
+      [] e.op = "csink" -> CsinkObs(k, Drop(Chunks(e.a[3]), e.a[2]))
       [] e.op = "mdec" -> MdecObs(k, e.a[2], Drop(e.a, 4))
       [] e.op = "bdec" -> BdecObs(k, B3(2), Drop(e.a, 6))
       [] e.op = "sdec" -> SdecObs(k, Drop(e.a, 3))
